@@ -12,6 +12,7 @@ From Verif Require Import Model.Inventory Model.Balance Proofs.InventoryProofs.
 From Verif Require Model.Inventory Model.PrimsEnvLedger Gen.SrcEnvLedger Proofs.SrcEnvLedger.
 From Verif Require Model.PrimsAgg Model.PrimsAggInv Gen.SrcAggInv Proofs.SrcAggInv.
 From Verif Require Model.PrimsInvFuncs Proofs.SrcInvFuncs.
+From Verif Require Model.FirstLast Proofs.SrcAggFirstLast.   (* bld-inv2: first / last over inventories *)
 Open Scope Z_scope.
 
 (* ---------------- the finite-map view is faithful ---------------- *)
@@ -529,3 +530,125 @@ Example C12_source_invfuncs_example :
   run envlx_empty_inventory [Inv.enc_inv []] = Ok (PBool true) /\
   run envlx_filter_currency_inventory [Inv.enc_inv inv; PInt 2] = Ok (Inv.enc_inv [((2, lot), 5); ((2, None), 1)]).
 Proof. vm_compute. repeat split; reflexivity. Qed.
+
+(* ---- tie by translation (bld-inv2): `first(x)` / `last(x)` over Inventory / Position / Amount operands.
+   Gen/SrcAggInv.v also carries, regenerated on every run: `first_last_overloads` (EVERY overload the live
+   query_compile.FUNCTIONS has under `first` / `last`, with the function each protocol method resolves to through the
+   live MRO), `first_last_dispatch` (what the live types.function_lookup returns for an operand of every datatype of the
+   registry and of Inventory / Position / Amount) and the translated methods `aggi_First_*` / `aggi_Last_*`.  There is ONE
+   overload each, for [types.Any]: an inventory operand runs the same code objects as a scalar one (tied for scalar
+   slots by C02_source_update_first / _last), there is no inventory-specific overload whose code could copy or fold.
+   The theorems below tie those methods on stores whose slots hold ENCODED inventories / positions / amounts
+   (Model/PrimsAggInv.enc_operand) to Model/FirstLast.v; operands are opaque pure callables of the row context. ---- *)
+Import Verif.Model.FirstLast Verif.Proofs.SrcAggFirstLast.
+
+(* census: every overload of first / last is one of the two translated classes; their methods are these terms *)
+Theorem C12_source_first_last_census :
+  first_last_overloads =
+  [("first", "beanquery.query_env.First", "any", class_First);
+   ("last", "beanquery.query_env.Last", "any", class_Last)]
+  /\ class_First = {| c_allocate := aggi_EvalAggregator_allocate; c_initialize := aggi_First_initialize;
+                      c_update := aggi_First_update; c_finalize := aggi_EvalAggregator_finalize;
+                      c_call := aggi_EvalAggregator_call |}
+  /\ class_Last = {| c_allocate := aggi_EvalAggregator_allocate; c_initialize := aggi_Last_initialize;
+                     c_update := aggi_Last_update; c_finalize := aggi_EvalAggregator_finalize;
+                     c_call := aggi_EvalAggregator_call |}.
+Proof. exact (conj first_last_overloads_table first_last_methods). Qed.
+Print Assumptions C12_source_first_last_census.
+
+(* dispatch: for every datatype of the registry the live lookup of first / last returns First / Last; Inventory,
+   Position and Amount are among the datatypes asked *)
+Theorem C12_source_first_last_dispatch :
+  forallb dispatch_ok first_last_dispatch = true /\
+  forall name cls, (name = "first" /\ cls = "beanquery.query_env.First") \/ (name = "last" /\ cls = "beanquery.query_env.Last") ->
+  In (name, "beancount.core.inventory.Inventory", cls) first_last_dispatch /\
+  In (name, "beancount.core.position.Position", cls) first_last_dispatch /\
+  In (name, "beancount.core.amount.Amount", cls) first_last_dispatch.
+Proof. exact (conj first_last_dispatch_all first_last_dispatch_inventory_types). Qed.
+Print Assumptions C12_source_first_last_dispatch.
+
+(* initialize: None in the node's slot, nothing else changes *)
+Theorem C12_source_first_last_initialize : forall (call_ref : nat -> list pv -> pv) (k : fl) (i kd ko : nat) (value : pv)
+    (slots : list pv),
+  (i < List.length slots)%nat ->
+  call_method call_ref prims_agginv (c_initialize (fl_class k)) (inv_node i kd ko value) [PList slots] =
+  Ok (inv_node i kd ko value, PList (set_nth i PNone slots)).
+Proof. intros call_ref k i kd ko value slots. apply initialize_none_src. destruct k; auto. Qed.
+Print Assumptions C12_source_first_last_initialize.
+
+(* First.update: an occupied slot stays (the operand is NOT evaluated: no hypothesis about it then), an empty one takes
+   the operand's value as it is *)
+Theorem C12_source_first_last_update_first : forall (call_ref : nat -> list pv -> pv) (i kd ko : nat) (value : pv)
+    (slots : list pv) (ctx : pv) (cur v : option operand),
+  (i < List.length slots)%nat -> nth i slots PNone = enc_operand cur ->
+  (cur = None -> call_ref ko [ctx] = enc_operand v) ->
+  call_method call_ref prims_agginv aggi_First_update (inv_node i kd ko value) [PList slots; ctx] =
+  Ok (inv_node i kd ko value, PList (set_nth i (enc_operand (first_step cur v)) slots)).
+Proof. exact update_first_src. Qed.
+Print Assumptions C12_source_first_last_update_first.
+
+(* Last.update: the operand's value, always, as it is *)
+Theorem C12_source_first_last_update_last : forall (call_ref : nat -> list pv -> pv) (i kd ko : nat) (value : pv)
+    (slots : list pv) (ctx : pv) (cur v : option operand),
+  (i < List.length slots)%nat -> call_ref ko [ctx] = enc_operand v ->
+  call_method call_ref prims_agginv aggi_Last_update (inv_node i kd ko value) [PList slots; ctx] =
+  Ok (inv_node i kd ko value, PList (set_nth i (enc_operand (last_step cur v)) slots)).
+Proof. exact update_last_src. Qed.
+Print Assumptions C12_source_first_last_update_last.
+
+(* the fold over the rows of a group, both classes: initialize, update per row, finalize, __call__ *)
+Theorem C12_source_first_last_fold : forall (call_ref : nat -> list pv -> pv) (k : fl) (i kd ko : nat) (value : pv)
+    (slots : list pv) (ctxs : list pv) (ctx : pv) (vals : list (option operand)),
+  (i < List.length slots)%nat -> operands_on call_ref ko ctxs vals ->
+  run_group call_ref (fl_class k) (inv_node i kd ko value) (PList slots) ctxs ctx =
+  Ok (inv_node i kd ko (enc_operand (fl_value k vals)),
+      PList (set_nth i (enc_operand (fl_value k vals)) slots),
+      enc_operand (fl_value k vals)).
+Proof. exact first_last_fold_src. Qed.
+Print Assumptions C12_source_first_last_fold.
+
+(* what the folds are: the first non-NULL value / the value of the last row *)
+Theorem C12_source_first_last_values : forall vals : list (option operand),
+  first_value vals = first_some vals /\ last_value vals = last vals None.
+Proof. intros vals. exact (conj (first_value_first_some vals) (last_value_last vals)). Qed.
+Print Assumptions C12_source_first_last_values.
+
+(* a non-empty group of inventories (the `balance` column, `sum`-able inventories of a subquery): first(inv) is the
+   inventory of the first row, last(inv) that of the last row - the terms the correspondence of c12.py uses
+   (`hd [] PS`, `last PS []`) *)
+Theorem C12_source_first_last_first_inventory : forall (call_ref : nat -> list pv -> pv) (i kd ko : nat) (value : pv)
+    (slots ctxs : list pv) (ctx : pv) (x : inventory) (l : list inventory),
+  (i < List.length slots)%nat ->
+  operands_on call_ref ko ctxs (map (fun i => Some (OInventory i)) (x :: l)) ->
+  run_group call_ref class_First (inv_node i kd ko value) (PList slots) ctxs ctx =
+  Ok (inv_node i kd ko (Inv.enc_inv (hd [] (x :: l))), PList (set_nth i (Inv.enc_inv (hd [] (x :: l))) slots),
+      Inv.enc_inv (hd [] (x :: l))).
+Proof. exact first_inventory_src. Qed.
+Print Assumptions C12_source_first_last_first_inventory.
+
+Theorem C12_source_first_last_last_inventory : forall (call_ref : nat -> list pv -> pv) (i kd ko : nat) (value : pv)
+    (slots ctxs : list pv) (ctx : pv) (x : inventory) (l : list inventory),
+  (i < List.length slots)%nat ->
+  operands_on call_ref ko ctxs (map (fun i => Some (OInventory i)) (x :: l)) ->
+  run_group call_ref class_Last (inv_node i kd ko value) (PList slots) ctxs ctx =
+  Ok (inv_node i kd ko (Inv.enc_inv (last (x :: l) [])), PList (set_nth i (Inv.enc_inv (last (x :: l) [])) slots),
+      Inv.enc_inv (last (x :: l) [])).
+Proof. intros. rewrite last_cons. apply last_inventory_src; assumption. Qed.
+Print Assumptions C12_source_first_last_last_inventory.
+
+(* Non-vacuity: three rows whose operand values are NULL, an inventory, another inventory; slot 1 of three. *)
+Example C12_source_first_last_example :
+  let a := [((2, None), 5)] in
+  let b := [((3, None), 7); ((2, None), 1)] in
+  let vals := [None; Some (OInventory a); Some (OInventory b)] in
+  let call_ref := fun (k : nat) (args : list pv) =>
+    match k, args with
+    | O, [PV (VInt n)] => enc_operand (nth (Z.to_nat n) vals None)
+    | _, _ => PNone
+    end in
+  run_group call_ref class_First (inv_node 1 1 0 PNone) (PList [PInt 42; PInt 0; PInt 43]) [PInt 0; PInt 1; PInt 2] (PInt 2)
+  = Ok (inv_node 1 1 0 (Inv.enc_inv a), PList [PInt 42; Inv.enc_inv a; PInt 43], Inv.enc_inv a)
+  /\ run_group call_ref class_Last (inv_node 1 1 0 PNone) (PList [PInt 42; PInt 0; PInt 43]) [PInt 0; PInt 1; PInt 2] (PInt 2)
+  = Ok (inv_node 1 1 0 (Inv.enc_inv b), PList [PInt 42; Inv.enc_inv b; PInt 43], Inv.enc_inv b)
+  /\ operands_on call_ref 0 [PInt 0; PInt 1; PInt 2] vals.
+Proof. vm_compute. repeat split; repeat constructor. Qed.
